@@ -117,6 +117,29 @@ def r2_no_solution(ctx, chk, rule="C06.2"):
                       expected=show(want), found=show(cond), construct="no-solution guard")
 
 
+def r2b_flag_raises(ctx, chk, rule="C06.2b"):
+    """Any other raise in the reachability phase whose condition involves the prune flag changes when 'no solution' is
+    reported (and makes the outcome depend on the flag for games whose initial state has a positive value)."""
+    for q in ("tad.py::Solver.solve_reachability", "tad.py::StochasticGame.solve"):
+        f = ctx.func(q)
+        cls = f.cls.name
+        sx = SymX(ctx, f, cls, inline_depth=0).run()
+        flags = [("v", p) for p in f.params if "prune" in p] + [("attr", ("v", "self"), "prune_states")]
+        effs = list(sx.final.effects)
+        for L in sx.loops.values():
+            effs += L.effects
+        n = 0
+        for e in effs:
+            if e[1] == "raise" and any(t in flags for t in C02._sub(e[0])):
+                n += 1
+                chk.violation(rule, f.where(), "%s raises under `%s`: an extra pruning-dependent failure besides the documented 'no solution' test "
+                              "(state_list[0].reach_probability == 0 and prune, after the sweep) - e.g. a final initial state or a state the search result does not list is declared unsolvable" % (f.short, show(e[0])[:160]),
+                              expected="the only pruning-dependent raise is the no-solution guard in value_iteration_reachability", found=show(e[0])[:200],
+                              construct="%s extra flag-dependent raise" % f.short)
+        if not n:
+            chk.ok(rule, f.where(), "%s has no raise whose condition involves the prune flag" % f.short)
+
+
 def r3a_definite_assignment(ctx, chk, rule="C06.3a"):
     """Variables assigned only inside the `if` of a MAX/MIN fold and used after the loop."""
     roles = K.role_classes(ctx)
@@ -515,6 +538,7 @@ def run(ctx, chk):
     r1_raise_census(ctx, chk)
     r1b_try_census(ctx, chk)
     r2_no_solution(ctx, chk)
+    r2b_flag_raises(ctx, chk)
     r3a_definite_assignment(ctx, chk)
     r3b_constant_subscripts(ctx, chk)
     r3c_division(ctx, chk)
